@@ -106,6 +106,7 @@ def run(ctx, deep=False):
     _compare_validate(ctx, 20000 if thorough else 3000)
     _receive_path(ctx, thorough)
     _damaged_repeat(ctx, thorough)
+    _damaged_echo(ctx, thorough)
     ctx.assumptions += [
         "bytes objects are modelled as lists of naturals < 256",
     ]
@@ -367,6 +368,34 @@ def _damaged_repeat(ctx, thorough):
                 ctx.violation("C06:damaged-repeat-delivered", "an intact frame %s followed by its %s-damaged repeat %s (same check bytes, which do not match the CRC-16/MODBUS of the damaged "
                               "bytes): %d frames were delivered to subscribers before the connection was re-established" % (fr.hex(), kind, dmg.hex(), len(pre)),
                               kind="history", monitor="c06", script=script, gen=gen, implementation_output=r["obs"], spec_verdict="exactly the intact frame is delivered")
+                break
+
+
+def _damaged_echo(ctx, thorough):
+    """the console returns the command the client has just written, one covered bit damaged on the way (its check bytes arrive as the client
+    wrote them): nothing is delivered - whatever the client remembers of what it sent"""
+    import sockcheck
+    for gen in (4, 5):
+        covered_from = 2 if gen == 4 else 14          # (the AirTouch 5 outer header and its lengths are not under the check value)
+        scripts = []
+        for j in range(48):
+            for gap in ([("turn", 2)], [("adv", 2)]):
+                scripts.append([("net", "accept"), ("open",), ("adv", 8), ("send", 1, "ok", "idem"), ("turn", 3)] + gap + [("peerecho", covered_from * 8 + j), ("adv", 8), ("heal",)])
+        for script, r in zip(scripts, sockcheck.run_scripts(scripts, gen=gen)):
+            if "error" in r:
+                raise RuntimeError(r["error"])
+            ctx.case(("rx-echo", gen, script[-3][1], script[5][0]))
+            ctx.count("rx:damaged-echo-of-the-client's-own-frame")
+            pre = []
+            for line in r["obs"]:
+                if line.startswith("heal"):
+                    break
+                if line.startswith("deliver"):
+                    pre.append(line)
+            if pre:
+                ctx.violation("C06:damaged-echo-delivered", "the client's own frame returned by the peer with covered bit %d flipped (check bytes as written, which do not match the "
+                              "CRC-16/MODBUS of the damaged bytes) was delivered to subscribers: %s" % (script[-3][1], pre[:2]),
+                              kind="history", monitor="c06", script=script, gen=gen, implementation_output=r["obs"], spec_verdict="nothing is delivered")
                 break
 
 
